@@ -7,6 +7,7 @@
  D3 no implicit floating -> integral narrowing inside the kernels
  D4 extremum searches start from -inf / +inf; accumulating kernels reset their output entry before accumulating
 """
+import os
 from .facts import kids, strip, walk, is_call, render, local_inits, AnalysisBroken
 from . import e1, umbrella
 
@@ -529,6 +530,124 @@ def _d6(chk, fb):
     chk.floor("D6", "scalar shortcuts in front of element-wise updates", n, 1)
 
 
+def _d7(chk, fb):
+    """output coverage: resize() keeps what the storage held, so a kernel that resizes its output and then assigns entries with '='
+    must assign every entry.  For every shape of a small grid on which the kernel does not throw, the rectangles of (row, column)
+    pairs written by the assigning statements cover [0, rows) x [0, cols).  Refuted with the shape and a missing cell; a kernel
+    whose assignments sit under data tests or whose index ranges are not exact is not judged"""
+    from . import e2
+    import itertools
+    S = e2.sp()
+    n = 0
+    for f in sorted(_kernels(fb), key=lambda x: x.key):
+        if f.name in KNOWN_SKIPS:
+            continue
+        outs = [p_ for p_ in f.params if "Matrix" in (p_.get("ty") or "") and p_["ty"].endswith("&") and not p_["ty"].startswith("const ") and "vector" not in p_["ty"]]
+        if not outs:
+            continue
+        fun = e2.Fun(fb, f)
+        allsites = list(e2.sites(fun))
+        for O in outs:
+            resized = [c for c in f.calls() if c["callee"]["name"] == "resize" and "obj" in c and render(f.obj(c)) == O["name"]]
+            if not resized:
+                continue
+            info = []
+            bad = None
+            for c in f.calls():
+                if any(render(strip(a)) == O["name"] for a in f.args(c)):
+                    bad = "%s is handed to %s (%s), which may assign entries" % (O["name"], c["callee"]["name"], f.loc(c))
+                    break
+            for c, cont, idxs, kind in ([] if bad else allsites):
+                if kind != "matrix" or len(idxs) != 2 or render(cont) != O["name"]:
+                    continue
+                par = f.parent.get(c["id"])
+                while par is not None and par["k"] in ("ImplicitCastExpr", "ParenExpr"):
+                    par = f.parent.get(par["id"])
+                if par is None or par["k"] != "BinaryOperator" or par.get("op") != "=" or strip(kids(par)[0]) is not strip(c):
+                    continue
+                br, bc = fun.index_bounds(idxs[0], c), fun.index_bounds(idxs[1], c)
+                rels, unparsed = fun.facts(c)
+                cl, why = fun.control(c)
+                if br is None or bc is None or unparsed or why or "~approx" in br[2] or "~approx" in bc[2] or any(k_.startswith("~") for k_ in list(br[2]) + list(bc[2])):
+                    bad = "an assigning statement (%s) has an index range or a guard this rule cannot make exact" % f.loc(c)
+                    break
+                info.append((c, br, bc, rels, dict(cl)))
+            if bad or not info:
+                if bad:
+                    n += 1
+                    chk.unknown("D7", f.key, "output-coverage:" + O["name"], f.loc(resized[0]), bad)
+                continue
+            dims = fun.dims(f.obj(info[0][0]), info[0][0])
+            if not dims or dims[0] is None or dims[1] is None or fun.local_atoms:
+                continue
+            n += 1
+            base = min(info, key=lambda x: len(x[3]))[3]
+            el = e2._elimination(S, base)
+
+            def red(x):
+                for sym, val in el:
+                    x = x.subs(sym, val)
+                return x
+            syms = set((red(dims[0]) + red(dims[1])).free_symbols)
+            for c, br, bc, rels, cl in info:
+                for r in rels:
+                    rr = red(r)
+                    syms |= rr.free_symbols if hasattr(rr, "free_symbols") else set()
+                for a_, b_ in list(cl.values()) + list(br[2].values()) + list(bc[2].values()):
+                    syms |= red(a_ - b_).free_symbols
+                syms |= red(br[0] + br[1] + bc[0] + bc[1]).free_symbols
+            for _, v_ in el:
+                syms |= red(v_).free_symbols
+            syms = sorted(syms, key=str)
+            con = "output-coverage:" + O["name"]
+            if len(syms) > 5:
+                chk.unknown("D7", f.key, con, f.loc(resized[0]), "too many size symbols (%d)" % len(syms))
+                continue
+            miss = None
+            checked = 0
+            try:
+                for vals in itertools.product(range(0, 4), repeat=len(syms)):
+                    env = dict(zip(syms, vals))
+                    if not all(bool(red(r).subs(env)) for r in base):
+                        continue
+                    if not all(int(red(v_).subs(env)) >= 0 for _, v_ in el):
+                        continue
+                    R, C = int(red(dims[0]).subs(env)), int(red(dims[1]).subs(env))
+                    if R <= 0 or C <= 0 or R > 6 or C > 6:
+                        continue
+                    covered = set()
+                    for c, br, bc, rels, cl in info:
+                        if not all(bool(red(r).subs(env)) for r in rels):
+                            continue
+                        loops = dict(cl); loops.update(br[2]); loops.update(bc[2])
+                        if not all(int(red(b_ - a_).subs(env)) > 0 for a_, b_ in loops.values()):
+                            continue
+                        r0, r1 = int(red(br[0]).subs(env)), int(red(br[1]).subs(env))
+                        c0, c1 = int(red(bc[0]).subs(env)), int(red(bc[1]).subs(env))
+                        covered |= {(i_, j_) for i_ in range(max(r0, 0), r1 + 1) for j_ in range(max(c0, 0), c1 + 1)}
+                    checked += 1
+                    missing = [(i_, j_) for i_ in range(R) for j_ in range(C) if (i_, j_) not in covered]
+                    if missing:
+                        miss = (env, R, C, missing[0])
+                        break
+            except (TypeError, ValueError) as ex:
+                if os.environ.get("BPPVERIF_DEBUG"):
+                    import traceback; traceback.print_exc()
+                chk.unknown("D7", f.key, con, f.loc(resized[0]), "bounds not evaluable on the shape grid")
+                continue
+            if miss:
+                env, R, C, cell = miss
+                chk.refuted("D7", f.key, con, f.loc(resized[0]),
+                            "%s resizes %s to %dx%d for the shape %s and assigns its entries, but entry (%d, %d) is assigned by no statement: it keeps whatever the output matrix held before the call" % (
+                                f.name, O["name"], R, C, {str(k_): v_ for k_, v_ in env.items()}, cell[0], cell[1]),
+                            witness={"shape": {str(k_): v_ for k_, v_ in env.items()}, "cell": list(cell), "history": "an output matrix that already holds non-zero data"})
+            elif checked:
+                chk.proved("D7", f.key, con, f.loc(resized[0]), "on %d shapes of the grid every entry of %s is assigned" % (checked, O["name"]))
+            else:
+                chk.unknown("D7", f.key, con, f.loc(resized[0]), "no shape of the grid satisfies the guards")
+    chk.floor("D7", "kernels that resize and fill an output", n, 6)
+
+
 def run(chk, fb, tier):
     chk.rule("D1", "E2 SymBounds on every MatrixTools kernel: index bounds vs dimensions from resize/guards; witness shape required to refute")
     chk.rule("D2", "const/non-const operator() of each storage class return the same element; LinearMatrix::resize_ assigns rows_ and cols_ on every path; flat layout i*cols_+j")
@@ -542,6 +661,8 @@ def run(chk, fb, tier):
     _d5(chk, fb)
     chk.rule("D6", "E7: an early return guarded by equalities on scalar parameters is taken only when the element-wise update that follows is the identity under those equalities")
     _d6(chk, fb)
+    chk.rule("D7", "output coverage: a kernel that resizes its output and assigns entries with '=' assigns every entry, for every shape of the witness grid on which it does not throw")
+    _d7(chk, fb)
     chk.note("skipped in D1 (data-dependent indices): %s" % KNOWN_SKIPS)
     from . import argswap as _argswap
     chk.rule("DA", "argument/parameter name agreement at forwarding calls in the anchored units (same-typed parameters must not be swapped)")
